@@ -242,6 +242,12 @@ func (g *gen) script() {
 		g.arrivals(active)
 		if g.k.terminate && (last || r.Intn(4) == 0) || (!g.k.saturated && r.Intn(12) == 0) {
 			for _, c := range g.liveChans() {
+				// an unbuffered closed input is a coin toss in Go (the ticker case of `iou`
+				// competes with the closed receive): the deterministic stepper keeps
+				// unbuffered inputs open and empty; closing them is left to the black-box runs
+				if cap(s.chans[c]) == 0 {
+					continue
+				}
 				if !s.closedCh[c] && (last && g.k.terminate || r.Intn(2) == 0) {
 					g.do(fmt.Sprintf("close %d", c))
 					s.closedCh[c] = true
